@@ -33,3 +33,10 @@ Proof.
   unfold all_fields_checked in H. rewrite forallb_forall in H.
   specialize (H _ Hm). cbn in H. rewrite forallb_forall in H. exact (H _ Hf).
 Qed.
+
+(** C15: the lock sites of the source are the audited ones, each released by defer or with nothing
+    that can fail in between (a non-deferred unlock after a backend call or a callback re-opens this) *)
+Theorem HandlerGen_lock_sites : lock_sites = lock_sites_expected.
+Proof. vm_compute. reflexivity. Qed.
+Theorem HandlerGen_locks_released : locks_released = true.
+Proof. vm_compute. reflexivity. Qed.
